@@ -1150,3 +1150,46 @@ Proof. repeat split; vm_compute; reflexivity. Qed.
 Lemma output_by_reference_overwritten (A : Type) (st : store A) (r : N) (unredacted : A) :
   commit A st [(r, unredacted)] r = unredacted.
 Proof. unfold commit, write. cbn. rewrite N.eqb_refl. reflexivity. Qed.
+
+(* ================================================================================================ *)
+(* 9. opaque values held by reference: redaction of a deep copy writes nothing that is live          *)
+(* ================================================================================================ *)
+Section RjsonInd.
+  Variable P : rjson -> Prop.
+  Hypothesis HS : forall j, P (RScalar j).
+  Hypothesis HT : forall s, P (RStr s).
+  Hypothesis HA : forall r l, Forall P l -> P (RArr r l).
+  Hypothesis HO : forall r kvs, Forall (fun kv => P (snd kv)) kvs -> P (RObj r kvs).
+  Fixpoint rjson_ind' (j : rjson) : P j :=
+    match j with
+    | RScalar x => HS x
+    | RStr s => HT s
+    | RArr r l => HA r l ((fix go (l : list rjson) : Forall P l :=
+                             match l with [] => Forall_nil _ | x :: l' => Forall_cons _ (rjson_ind' x) (go l') end) l)
+    | RObj r kvs => HO r kvs ((fix go (kvs : list (string * rjson)) : Forall (fun kv => P (snd kv)) kvs :=
+                                 match kvs with [] => Forall_nil _ | kv :: kvs' => Forall_cons _ (rjson_ind' (snd kv)) (go kvs') end) kvs)
+    end.
+End RjsonInd.
+
+Lemma blank_inplace_relabel f : forall j, blank_inplace (relabel f j) = map f (blank_inplace j).
+Proof.
+  induction j as [x|s|r l IH|r kvs IH] using rjson_ind'; try reflexivity.
+  - cbn. induction IH as [|x l Hx Hl IH']; [reflexivity|]. cbn. rewrite Hx, IH', map_app. reflexivity.
+  - cbn. induction IH as [|[k x] kvs Hx Hl IH']; [reflexivity|]. cbn in Hx. cbn. rewrite IH', map_app. f_equal.
+    destruct (key_eq k tls_key_json); [|exact Hx].
+    destruct x; try exact Hx. cbn. destruct (String.eqb s "" || String.eqb s placeholder)%bool; reflexivity.
+Qed.
+
+(* for EVERY opaque value (any depth, any sharing among the live regions) and every next: the in-place redactor run on a
+   deep copy writes only regions >= next, i.e. none of the live configuration *)
+Theorem deep_copy_redaction_pure : forall next j, Forall (fun r => (next <= r)%N) (blank_inplace (copy_deep next j)).
+Proof.
+  intros next j. unfold copy_deep. rewrite blank_inplace_relabel. apply Forall_forall. intros r Hin.
+  apply in_map_iff in Hin. destruct Hin as [r0 [E _]]. subst r. lia.
+Qed.
+
+(* the one-level copy is refuted: the key two levels down is written in a live region; a key at the top is not *)
+Lemma top_copy_redaction_refuted :
+  blank_inplace (copy_top 10 w_ev_nested) = [3%N] /\ blank_inplace (copy_top 10 w_ev_top) = [10%N] /\
+  blank_inplace (copy_deep 10 w_ev_nested) = [13%N].
+Proof. repeat split; vm_compute; reflexivity. Qed.
